@@ -27,6 +27,9 @@ func Exec(w World, c *Case, generate bool, verbose bool) (out *Outcome, trace []
 	defer func() {
 		if r := recover(); r != nil {
 			stack := string(debug.Stack())
+			if rt, ok := r.(interface{ SUTStack() string }); ok {
+				stack = rt.SUTStack() // raised on another goroutine (a delivery run under the hang watchdog)
+			}
 			out = x.Finish()
 			trace = x.Trace
 			// A panic raised inside the code under test while the world was driving it with legal
@@ -190,7 +193,7 @@ func RunBatch(w World, o BatchOpts) *BatchResult {
 	if o.From == 0 {
 		runDirected(w, o, known, res)
 	}
-	for i := o.From; i < o.To && len(res.Violations) == 0; i++ {
+	for i := o.From; i < o.To && len(res.Violations) == 0 && simgo.Poisoned == ""; i++ {
 		if time.Since(start) > o.Budget {
 			break
 		}
@@ -238,7 +241,15 @@ func RunBatch(w World, o BatchOpts) *BatchResult {
 				continue
 			}
 			// unknown violation: confirm by replay, shrink, write, stop.
-			rf := Minimise(w, c, v, o.ShrinkFor)
+			var rf *ReplayFile
+			if simgo.Poisoned != "" {
+				// the code under test hangs in this process: nothing can be replayed here; the
+				// recorded step list is replayed in a fresh process by `verif replay`
+				rf = &ReplayFile{Property: v.Prop, Violation: v, Case: c.Clone(), OrigSteps: len(c.Steps), MinSteps: len(c.Steps),
+					Note: "hang: " + simgo.Poisoned + "; not replayed or shrunk in the process that hung"}
+			} else {
+				rf = Minimise(w, c, v, o.ShrinkFor)
+			}
 			rf.Repo = o.RepoFP
 			if rf.Note == "replay-diverged" {
 				res.Infra = append(res.Infra, fmt.Sprintf("seed=%d: violation %s did not reproduce on replay (nondeterminism in harness)", cs, v.Key()))
@@ -345,7 +356,23 @@ func Minimise(w World, c *Case, v *Violation, budget time.Duration) *ReplayFile 
 	base := c.Clone()
 	v0 := try(base)
 	if !sameViolation(v0, v) {
-		return &ReplayFile{Property: v.Prop, Violation: v, Case: base, OrigSteps: orig, MinSteps: orig, Note: "replay-diverged"}
+		// The step list decides everything the simulator owns. What it does not own are goroutines
+		// the code under test starts itself on this path (e.g. the signature verifier's workers):
+		// a defect that only bites under some of their interleavings (a hang, a lost result) shows
+		// in some replays and not in others. Such a violation is still a real execution of the real
+		// code, so it is reported, unshrunk and marked, if any of a few more replays shows it again;
+		// if none does, it stays harness trouble (exit 2), never a verdict.
+		hits := 0
+		for i := 0; i < 4; i++ {
+			if sameViolation(try(base), v) {
+				hits++
+			}
+		}
+		if hits == 0 {
+			return &ReplayFile{Property: v.Prop, Violation: v, Case: base, OrigSteps: orig, MinSteps: orig, Note: "replay-diverged"}
+		}
+		return &ReplayFile{Property: v.Prop, Violation: v, Case: base, OrigSteps: orig, MinSteps: orig,
+			Note: fmt.Sprintf("flaky-replay: reproduced in %d of 5 replays (free-running goroutines of the code under test on this path); not shrunk", hits)}
 	}
 	cur := base
 	curV := v0
@@ -406,7 +433,23 @@ func Minimise(w World, c *Case, v *Violation, budget time.Duration) *ReplayFile 
 // 1 if the recorded violation reproduces exactly, 0 if the case now passes,
 // 2 if the two executions disagree or a different thing happens.
 func Replay(w World, rf *ReplayFile, verbose bool) (int, string) {
+	if strings.HasPrefix(rf.Note, "flaky-replay") {
+		for i := 0; i < 8; i++ {
+			o, _ := Exec(w, rf.Case.Clone(), false, false)
+			if o.Infra == "" && sameViolation(o.Violation, rf.Violation) {
+				return 1, fmt.Sprintf("reproduced (attempt %d; %s): %s: %s", i+1, rf.Note, o.Violation.Key(), o.Violation.Detail)
+			}
+		}
+		return 0, "no violation in 8 replays of a case recorded as " + rf.Note
+	}
 	o1, tr := Exec(w, rf.Case.Clone(), false, verbose)
+	if simgo.Poisoned != "" {
+		// the first execution left the code under test hanging: that is the reproduction
+		if o1.Violation != nil {
+			return 1, fmt.Sprintf("reproduced: %s step=%d: %s", o1.Violation.Key(), o1.Violation.Step, o1.Violation.Detail)
+		}
+		return 2, "the code under test hung but the world reported nothing"
+	}
 	o2, _ := Exec(w, rf.Case.Clone(), false, false)
 	if o1.Infra != "" {
 		return 2, "infra: " + o1.Infra
